@@ -215,3 +215,81 @@ theorem bwdColumn_eq (X : ColCtx K) (prev : Array K) (hc : X.c > 0)
 
 end
 end WhVerif.C08.Impl
+
+namespace WhVerif.C08.Impl
+open WhVerif.C08 WhVerif.C01 Finset
+
+section
+variable {K : Type} [Field K]
+
+/-- the column context reads the same numbers as the clean model's `Weights` in column `c` of frame `F` -/
+structure ColCtx.Matches (X : ColCtx K) (F : Frame) (W : Weights K) (c : Nat) : Prop where
+  c_eq : X.c = c
+  nCols_eq : X.nCols = F.nCols
+  co_eq : X.co = F.col c
+  nT_eq : X.nT = W.nT
+  nA_eq : 2 ^ X.nP = W.nA
+  trans_eq : ∀ j t, X.trans j t = W.trans c j t
+  asg_eq : ∀ t a, X.asg t a = W.asg c t a
+  emit_eq : ∀ bits t a, t < W.nT → emitCol X.em (X.parts t) a X.col bits = W.emit c bits t a
+
+theorem fst_sum' {ι M N : Type} [AddCommMonoid M] [AddCommMonoid N] (s : Finset ι) (f : ι → M × N) :
+    (∑ i ∈ s, f i).1 = ∑ i ∈ s, (f i).1 := map_sum (AddMonoidHom.fst M N) f s
+
+theorem sum_scatter_idx (nT bp p j : Nat) (hj : j < nT) (v : Nat → K) :
+    (∑ j' ∈ range nT, if bp * nT + j' = p * nT + j then v j' else 0) = if bp = p then v j else 0 := by
+  by_cases h : bp = p
+  · subst h
+    rw [if_pos rfl, sum_eq_single j (fun j' _ hne => if_neg (fun e => hne (Nat.add_left_cancel e)))
+      (fun hn => absurd (mem_range.mpr hj) hn), if_pos rfl]
+  · rw [if_neg h]
+    apply sum_eq_zero
+    intro j' hj'
+    rw [if_neg]
+    intro e
+    have hj'' := mem_range.mp hj'
+    apply h
+    have h1 : (bp * nT + j') / nT = (p * nT + j) / nT := by rw [e]
+    rwa [idx2_div bp hj'', idx2_div p hj] at h1
+
+/-- **`compute_backward_column(c)` = `bwdStep` of the clean model with the code's `scaling_sum` as the divisor** -/
+theorem bwdColumn_eq_bwdStep (X : ColCtx K) (F : Frame) (W : Weights K) (S : Scal K) (c : Nat) (next : Array K)
+    (hM : X.Matches F W c) (hc : c > 0)
+    (hlen : X.col.length = X.co.nAct)
+    (hne : ∀ e ∈ X.col, ∀ ind alt q, e = some (ind, alt, q) → X.em q ≠ 0 ∧ 1 - X.em q ≠ 0)
+    (hP : ∀ t, t < X.nT → ∀ e ∈ X.col, ∀ ind alt q, e = some (ind, alt, q) → (X.parts t ind).1 < X.nP ∧ (X.parts t ind).2 < X.nP)
+    (hS : S.bw c = (bwdColumn X next X.co.bwdW).2)
+    (p j : Nat) (hp : p < 2 ^ (F.col c).bwdW) (hj : j < W.nT) :
+    tblAt (bwdColumn X next X.co.bwdW).1 (p * W.nT + j) = tblAt (bwdStep F W S c next) (p * W.nT + j) := by
+  have hnd : X.co.fwdPos.Nodup := by rw [hM.co_eq]; exact Frame.col_fwdPos_nodup F c
+  have hc' : X.c > 0 := by rw [hM.c_eq]; exact hc
+  have key := bwdColumn_eq X next hc' hlen hnd hne hP (p * W.nT + j)
+  rw [bwdStep_at F W S c next hp hj, hS, key.2, ← key.1]
+  congr 1
+  rw [fst_sum', hM.co_eq]
+  apply sum_congr rfl
+  intro idx _
+  unfold bH bG
+  rw [fst_sum']
+  have hbp : bwdProj (F.col c).bwdW idx = idx % 2 ^ (F.col c).bwdW := by
+    unfold bwdProj; rw [Nat.one_shiftLeft, Nat.and_two_pow_sub_one_eq_mod]
+  simp only [fst_sum', hM.nT_eq, hM.nA_eq, hM.co_eq, hbp, hM.c_eq, hM.nCols_eq, hc, if_true]
+  by_cases hpp : idx % 2 ^ (F.col c).bwdW = p
+  · rw [if_pos hpp]
+    apply sum_congr rfl
+    intro t ht
+    rw [mul_sum, sum_mul]
+    apply sum_congr rfl
+    intro a _
+    rw [sum_scatter_idx W.nT _ p j hj, if_pos hpp, hM.trans_eq, hM.asg_eq, hM.emit_eq _ _ _ (mem_range.mp ht)]
+    unfold bRaw
+    have e1 : (1 + c < F.nCols) = (c + 1 < F.nCols) := by rw [Nat.add_comm]
+    try simp only [e1]
+    split <;> ring
+  · rw [if_neg hpp]
+    apply sum_eq_zero; intro t _
+    apply sum_eq_zero; intro a _
+    rw [sum_scatter_idx W.nT _ p j hj, if_neg hpp]
+
+end
+end WhVerif.C08.Impl
